@@ -118,8 +118,30 @@ def subscript(interp, v, idx):
 
 def getattr(interp, obj, name):
     M = _missing()
+    if isinstance(obj, Rec) and obj.cls_name == "Pattern":
+        # re.Pattern stub: match(s) is an uninterpreted relation of (pattern, text); groupdict() an uninterpreted map
+        if name == "match":
+            def _match(text, _o=obj):
+                t = zstr(text)
+                pid = _o.fields["id"]
+                m = sym.ufun("re_matches", pid.sort(), z3.StringSort(), z3.BoolSort())(pid, t)
+                A = z3.ArraySort(z3.StringSort(), z3.BoolSort())
+                B = z3.ArraySort(z3.StringSort(), z3.StringSort())
+                has = sym.ufun("re_groupdict_has", pid.sort(), z3.StringSort(), A)(pid, t)
+                val = sym.ufun("re_groupdict_val", pid.sort(), z3.StringSort(), B)(pid, t)
+                interp.used_models.add("re: Pattern.match(text) and Match.groupdict() are uninterpreted functions of (pattern, text)")
+                return sym.SOpt(z3.Not(m), Rec("Match", {"gd": SMap(has, val, sym.TStr(), sym.TStr())}))
+            return _Closure(_match)
+        raise Unsupported(f"Pattern.{name}")
+    if isinstance(obj, Rec) and obj.cls_name == "Match":
+        if name == "groupdict":
+            return _Closure(lambda _o=obj: _o.fields["gd"].copy())
+        raise Unsupported(f"Match.{name}")
     if isinstance(obj, Rec) and obj.cls_name == "Path":
-        if name in ("name", "stem", "suffix", "parent"):
+        if name == "parent":
+            interp.used_models.add("pathlib: Path.parent is an uninterpreted function of the path (directories are not part of the file map)")
+            return mk_path(sym.sstr(sym.ufun("path_parent", z3.StringSort(), z3.StringSort())(zstr(obj.fields["s"]))))
+        if name in ("name", "stem", "suffix"):
             raise Unsupported(f"Path.{name} on symbolic path")
         if name not in obj.fields:
             from .interp import BoundM
@@ -634,6 +656,14 @@ def native_model(key):
         return f
 
     return deco
+
+
+@native_model("zorg.service.templates.ZorgTemplateManager")
+def _m_template_manager(interp, args, kwargs):
+    from zorg.service.templates import ZorgTemplateManager
+
+    interp.used_models.add("ZorgTemplateManager(zdir): construction has no effect on the notes directory (it only prepares a temp dir for jinja)")
+    return Rec("ZorgTemplateManager", {"_zdir": args[0]}, cls=ZorgTemplateManager)
 
 
 @native_model("pathlib.Path")
